@@ -35,7 +35,10 @@ def main():
     patch = os.path.join(mdir, 'patch.diff')
     demo = os.path.join(mdir, 'demo.py')
     meta = {'property': prop, 'seed_id': sid, 'source': 'sub-agent, given only the property text and its own worktree'}
-    meta['needs'] = open(os.path.join(mdir, 'notes.txt')).read().strip() if os.path.exists(os.path.join(mdir, 'notes.txt')) else ''
+    meta['needs'] = ''
+    for nm in ('notes.txt', 'note.txt'):
+        if os.path.exists(os.path.join(mdir, nm)):
+            meta['needs'] = open(os.path.join(mdir, nm)).read().strip()
     # 1. confirm in the scratch worktree, 2. run the check(s) against the patched tree
     sh('git checkout -- pyrex', cwd=wt)
     rc, out = sh('git apply --check %s' % patch, cwd=wt)
@@ -49,7 +52,7 @@ def main():
         passed = re.search(r'(\d+) passed', out_t)
         failed = re.search(r'(\d+) failed', out_t)
         meta['tests_with_patch'] = out_t.strip().split('\n')[-1]
-        rc_d1, out_d1 = sh('/venv/bin/python %s' % demo, cwd=wt, timeout=600)
+        rc_d1, out_d1 = sh('PYTHONPATH=%s /venv/bin/python %s' % (wt, demo), cwd=wt, timeout=600)
         ok_tests = bool(passed) and not failed and int(passed.group(1)) >= 1353
         if ok_tests and rc_d1 != 0:
             env = dict(os.environ, PYREX_TREE=wt)
@@ -64,7 +67,7 @@ def main():
                     print('     ' + l[:260])
     finally:
         sh('git checkout -- pyrex', cwd=wt)
-    rc_d0, out_d0 = sh('/venv/bin/python %s' % demo, cwd=wt, timeout=600)
+    rc_d0, out_d0 = sh('PYTHONPATH=%s /venv/bin/python %s' % (wt, demo), cwd=wt, timeout=600)
     meta['demo_exit_with_patch'] = rc_d1
     meta['demo_exit_without_patch'] = rc_d0
     meta['demo_output_with_patch'] = out_d1.strip()[-600:]
